@@ -45,9 +45,14 @@ def run(ctx, chk):
                                  "return the constants infinity (mantissa 0) or a NaN, every other pattern the scaled-mantissa "
                                  "computation, negated exactly when the sign bit is set")
     check_half_classes(chk, prog, eff)
-    chk.not_decided += ["that _cbor_decode_half computes the IEEE-754 value of each of the 65536 patterns, that cbor_encode_half "
-                        "inverts it (subnormals, rounding, exponent classes) and that its two variable-distance shifts stay in "
-                        "range: facts about arithmetic on runtime values; goto-analyzer returns UNKNOWN / aborts on them (DESIGN §1.3)"]
+    check_half_encode_table(chk, prog, eff)
+    import shift_rules
+    import ownership as _O
+    chk.rule("C15.shift-range", "the half encoder's two shifts by a run-time distance stay below the operand width for every exponent "
+                                "that reaches them")
+    shift_rules.check_shift_range(chk, "C15.shift-range", prog, eff, _O.PathCache(prog, eff), floor=2)
+    chk.not_decided += ["behaviour of cbor_encode_half on floats that are NOT half-representable (rounding / flush to zero): outside the "
+                        "property's domain", "exactness of libm's ldexp and of the hardware's double -> float conversion (trusted)"]
     # encode side
     for n, w in (("cbor_encode_single", 4), ("cbor_encode_double", 8), ("cbor_encode_half", 2)):
         res, np_ = ER.check_encoder(prog, eff, n)
@@ -238,10 +243,18 @@ def check_half_classes(chk, prog, eff):
                 raise AnalysisBroken("_cbor_decode_half branches on a non-integer condition: %r" % (t,))
         facts.append(fs)
     bad = []
+    badval = []
+    nval = 0
     counts = {}
+    cfacts = [(termeval.compile_terms([t for t, _ in fs], [hi_t, lo_t]), [tr for _, tr in fs]) for fs in facts]
+    cscale = {}
+    for i_, pa_ in enumerate(ps):
+        lc = pa_.calls("ldexp")
+        if len(lc) == 1 and isinstance(lc[0].args[0], tuple) and lc[0].args[0][0] == "cast" and lc[0].args[0][1] in ("sitofp", "uitofp"):
+            cscale[i_] = (termeval.compile_terms([lc[0].args[0][3], lc[0].args[1]], [hi_t, lo_t]), lc[0].args[0][1])
     for H in range(65536):
         env = {hi_t: H >> 8, lo_t: H & 0xFF}
-        match = [i for i, fs in enumerate(facts) if all(bool(termeval.evaluate(t, env, {})) == truth for t, truth in fs)]
+        match = [i for i, (fn_, trs) in enumerate(cfacts) if all(bool(v) == tr for v, tr in zip(fn_(H >> 8, H & 0xFF), trs))]
         if len(match) != 1:
             bad.append("pattern %04x is served by %d paths" % (H, len(match)))
             continue
@@ -254,6 +267,26 @@ def check_half_classes(chk, prog, eff):
             want = "scaled"
             ok = kind == "scaled" and neg == bool(s_)
         counts[want] = counts.get(want, 0) + 1
+        if ok and want == "scaled":
+            # the operands of the scaling call denote exactly the IEEE-754 value of the pattern:
+            # significand x 2^exponent = m x 2^-24 (subnormal / zero) or (1024 + m) x 2^(e - 25)
+            val_ok = False
+            got = None
+            if match[0] in cscale:
+                fn_, kind_ = cscale[match[0]]
+                sv, xv = fn_(H >> 8, H & 0xFF)
+                if xv >> 31:
+                    xv -= 1 << 32
+                if kind_ == "sitofp" and sv >> 31:
+                    sv -= 1 << 32
+                # sv x 2^xv  ==  ref_sig x 2^ref_exp  (exact integer comparison after aligning the exponents)
+                rs, rx = (m_, -24) if e_ == 0 else (1024 + m_, e_ - 25)
+                lo_x = min(xv, rx)
+                got = (sv, xv)
+                val_ok = sv * (1 << (xv - lo_x)) == rs * (1 << (rx - lo_x))
+            nval += 1
+            if not val_ok and len(badval) < 6:
+                badval.append("pattern %04x (exponent %d, mantissa %d): scaling operands denote %s" % (H, e_, m_, got))
         if not ok and len(bad) < 6:
             bad.append("pattern %04x (sign %d, exponent %d, mantissa %d) must be %s%s; the decoder takes the '%s'%s path"
                        % (H, s_, e_, m_, "-" if s_ and want != "nan" else "", want, kind, " negated" if neg else ""))
@@ -262,3 +295,78 @@ def check_half_classes(chk, prog, eff):
     for k, v in sorted(counts.items()):
         chk.ob("C15.half-classes", "class %s: %d patterns examined" % (k, v), True, where, fn=f.name, key="half-class:" + k, nontrivial=False)
     chk.extra["half_patterns_classified"] = sum(counts.values())
+    chk.rule("C15.half-value", "for every finite half pattern the operands of the decoder's scaling call (integer terms, evaluated per "
+                               "pattern) denote exactly m x 2^-24 (exponent 0) or (1024 + m) x 2^(e-25); ldexp by a power of two and the "
+                               "double -> float conversion of a half-representable value are exact (ISO C / IEEE-754, trusted)")
+    chk.ob("C15.half-value", "scaling operands of all %d finite half patterns denote the IEEE-754 value" % nval, not badval and nval >= 63488, where,
+           fn=f.name, key="half-value", detail="; ".join(badval))
+    chk.extra["half_patterns_value_checked"] = nval
+
+
+def half_to_float_bits(H):
+    """IEEE-754 binary32 bit pattern of the binary16 pattern H (reference, integer arithmetic only)"""
+    s_, e_, m_ = H >> 15, (H >> 10) & 31, H & 1023
+    if e_ == 31:
+        return (s_ << 31) | (0xFF << 23) | (m_ << 13)
+    if e_ == 0:
+        if m_ == 0:
+            return s_ << 31
+        k = m_.bit_length() - 1            # m x 2^-24 = 1.xxx x 2^(k-24)
+        return (s_ << 31) | ((k - 24 + 127) << 23) | ((m_ << (23 - k)) & 0x7FFFFF)
+    return (s_ << 31) | ((e_ - 15 + 127) << 23) | (m_ << 13)
+
+
+def check_half_encode_table(chk, prog, eff):
+    """the half encoder, tabulated: for each of the 65536 half patterns the float that pattern denotes is encoded back to
+    the same pattern (NaNs to the canonical 0x7e00).  The encoder's result is an integer term over the float's bits;
+    it is evaluated per pattern, no floating-point evaluation takes place."""
+    import termeval
+    f = prog.fn("cbor_encode_half")
+    where = "%s:%d" % (f.file, f.line)
+    chk.rule("C15.half-encode-table", "cbor_encode_half restricted to the 65536 half-representable floats is the inverse of the half -> "
+                                      "float embedding: the 16-bit value it hands to the 3-byte primitive (an integer term over the bits "
+                                      "of its argument, evaluated per pattern on the one path whose conditions hold) is the original "
+                                      "pattern, and 0x7e00 for every NaN")
+    ps = P.Executor(prog, eff).run(f.name)
+    BITS = None
+    paths_ = []
+    for pa in ps:
+        enc = pa.calls("_cbor_encode_uint16")
+        if len(enc) != 1:
+            raise AnalysisBroken("cbor_encode_half: a path does not end in exactly one 16-bit primitive call")
+        for t in P.subterms(enc[0].args[0]):
+            if isinstance(t, tuple) and t[0] == "reinterpret" and t[2] == ("arg", 0):
+                BITS = t
+        for t, _tr, _ in pa.facts:
+            for u in P.subterms(t):
+                if isinstance(u, tuple) and u[0] == "reinterpret" and u[2] == ("arg", 0):
+                    BITS = u
+        paths_.append(([(t, tr) for t, tr, _ in pa.facts], enc[0].args[0]))
+    if BITS is None:
+        raise AnalysisBroken("cbor_encode_half does not reinterpret its argument as an integer")
+    bad = []
+    n = 0
+    UNO, ORD = ("fcmp", "uno", ("arg", 0), ("arg", 0)), ("fcmp", "ord", ("arg", 0), ("arg", 0))
+    leaves = [BITS, UNO, ORD]
+    compiled = []
+    for fs, res in paths_:
+        compiled.append((termeval.compile_terms([t for t, _ in fs] + [res], leaves), [tr for _, tr in fs]))
+    for H in range(65536):
+        fb = half_to_float_bits(H)
+        isnan = ((fb >> 23) & 0xFF) == 0xFF and (fb & 0x7FFFFF) != 0
+        match = []
+        for fn_, trs in compiled:
+            vals = fn_(fb, int(isnan), int(not isnan))
+            if all(bool(v) == tr for v, tr in zip(vals, trs)):
+                match.append(vals[-1])
+        if len(match) != 1:
+            bad.append("float of pattern %04x is served by %d paths" % (H, len(match)))
+            continue
+        got = match[0] & 0xFFFF
+        want = 0x7E00 if isnan else H
+        n += 1
+        if got != want and len(bad) < 6:
+            bad.append("the float denoted by half %04x is encoded as %04x" % (H, got))
+    chk.ob("C15.half-encode-table", "all 65536 half-representable floats encode to their own pattern (NaN -> 7e00)", not bad and n == 65536, where,
+           fn=f.name, key="half-encode-table", detail="; ".join(bad))
+    chk.extra["half_patterns_encoded"] = n
